@@ -121,6 +121,7 @@ pub struct LinkShared {
     pub trace: Option<Vec<(u8, u64, Bytes)>>,
     pub frames_total: u64,
     pub max_frames: u64,
+    trace_payload: [bool; 2],
 }
 
 /// Control handle of a link.
@@ -214,6 +215,7 @@ pub fn link(name: &'static str, cfg: LinkCfg, mode: MonitorMode) -> (Transport, 
         trace: None,
         frames_total: 0,
         max_frames: 200_000,
+        trace_payload: [false, false],
     };
     let ctl = LinkCtl(Arc::new(Mutex::new(shared)));
     let t0 = (
@@ -305,6 +307,19 @@ impl Sink<Bytes> for SimSink {
             l.frames_total += 1;
             if l.frames_total > l.max_frames {
                 kit::abort_run(format!("frame budget of link {} exhausted", l.name));
+            }
+            if std::env::var_os("SIM_TRACE_WIRE").is_some() {
+                let t = kit::now_us();
+                match crate::proto::decode(&item) {
+                    Ok(f) if !l.trace_payload[dir] => {
+                        l.trace_payload[dir] = matches!(f, crate::proto::Frame::Data { .. });
+                        println!("wire t={t}us {} dir{} #{idx}: {f:?}", l.name, dir);
+                    }
+                    _ => {
+                        l.trace_payload[dir] = false;
+                        println!("wire t={t}us {} dir{} #{idx}: payload {} bytes", l.name, dir, item.len());
+                    }
+                }
             }
             l.monitor.on_send(dir, &item);
             if let Some(t) = &mut l.trace {
